@@ -38,26 +38,37 @@ func (core *JApiCore) compileCore() *jerr.JApiError {
 }
 
 func (core *JApiCore) checkMacroForRecursion() *jerr.JApiError {
-	for macroName, macro := range core.macro {
-		if je := findPaste(macroName, macro); je != nil {
+	for _, macroName := range core.macroNames {
+		visited := map[string]struct{}{macroName: {}}
+		if je := core.findPaste(macroName, core.macro[macroName], visited); je != nil {
 			return je
 		}
 	}
 	return nil
 }
 
-func findPaste(macroName string, d *directive.Directive) *jerr.JApiError {
+// findPaste looks for a PASTE of the macro macroName in the directive d and in
+// all macros pasted from there (directly or indirectly).
+func (core *JApiCore) findPaste(macroName string, d *directive.Directive, visited map[string]struct{}) *jerr.JApiError {
 	if d.Type() == directive.Paste {
-		switch d.NamedParameter("Name") {
+		name := d.NamedParameter("Name")
+		switch name {
 		case "":
 			return d.KeywordError(fmt.Sprintf("%s (%s)", jerr.RequiredParameterNotSpecified, "Name"))
 
 		case macroName:
 			return d.KeywordError("recursion is prohibited")
 		}
+		if _, ok := visited[name]; ok {
+			return nil
+		}
+		visited[name] = struct{}{}
+		if m, ok := core.macro[name]; ok {
+			return core.findPaste(macroName, m, visited)
+		}
 	} else if d.Children != nil {
 		for _, c := range d.Children {
-			if je := findPaste(macroName, c); je != nil {
+			if je := core.findPaste(macroName, c, visited); je != nil {
 				return je
 			}
 		}
